@@ -434,6 +434,47 @@ fn barrier_race() {
     });
 }
 
+/// C09, schedule half, overlapping generations: a Barrier of 2; one party of the first generation waits; three more
+/// parties arrive on three threads. Four arrivals = two complete generations: at quiescence every wait() is done.
+fn barrier_generations() {
+    let mut b = loom::model::Builder::new();
+    b.preemption_bound = bound();
+    b.check(|| {
+        EXECUTIONS.fetch_add(1, std::sync::atomic::Ordering::Relaxed);
+        async_lock::verif::oracle_enable(true);
+        async_lock::verif::oracle_set(&[]);
+        let bar = std::sync::Arc::new(Barrier::new(2));
+        let mk = |b: std::sync::Arc<Barrier>| Task::new(async move { b.wait().await.is_leader() });
+        let mut ta = mk(bar.clone());
+        let mut tb = mk(bar.clone());
+        let mut tc = mk(bar.clone());
+        let mut td = mk(bar.clone());
+        ta.poll();
+        assert!(ta.pending());
+        let t1 = loom::thread::spawn(move || { tb.poll(); tb });
+        let t2 = loom::thread::spawn(move || { tc.poll(); tc.settle(); tc });
+        td.poll();
+        let mut tb = t1.join().unwrap();
+        let mut tc = t2.join().unwrap();
+        for _ in 0..6 {
+            ta.settle();
+            tb.settle();
+            tc.settle();
+            td.settle();
+        }
+        let pend = [ta.pending(), tb.pending(), tc.pending(), td.pending()];
+        if pend.iter().any(|p| *p) {
+            panic!("LOOM-VIOLATION barrier_generations: four parties arrived at a barrier of 2 (two complete generations), every woken task has been polled again, wait() futures still pending: {:?}", pend);
+        }
+        let leaders = [&ta, &tb, &tc, &td].iter().filter(|t| t.out == Some(true)).count();
+        if leaders != 2 {
+            panic!("LOOM-VIOLATION barrier_generations: {} leaders for two generations", leaders);
+        }
+        async_lock::verif::oracle_enable(false);
+        drop(ta); drop(tb); drop(tc); drop(td);
+    });
+}
+
 fn main() {
     let which = std::env::args().nth(1).unwrap_or_else(|| "all".to_string());
     let tests: Vec<(&str, fn())> = vec![
@@ -447,6 +488,7 @@ fn main() {
         ("once_init_race", once_init_race),
         ("once_blocking_race", once_blocking_race),
         ("barrier_race", barrier_race),
+        ("barrier_generations", barrier_generations),
     ];
     for (name, f) in tests {
         if which == "all" || which == name {
